@@ -1,11 +1,17 @@
 (* Property C03 — every mutation is validated and failure-atomic.
    Only the property theorems; proofs are in Struct/MutateProofs.v.
 
-   The full statement is FALSE of the faithful model (and of the pinned code): wrappers leave several
-   inherited mutators un-overridden (F3) or unvalidated (F3b), Field.__set__ stores before running the
-   __validate__ hook (F4) and Structure.__delitem__ never runs it.  It is therefore kept as a
-   Definition, refuted, and replaced by an exact characterisation that is parametric in the GENERATED
-   mutator tables (Gen/Tables.v, re-derived from collections_impl.py and CPython on every run). *)
+   The statement over EVERY conceivable mutator shape is false of the model (a wrapper mutator that is not
+   overridden, or that acts in place without validating, breaks it: F3/F3b, repaired in the library, and
+   re-checked on the GENERATED mutator tables on every run), and success leaves a valid instance only if the
+   normal form a field stores is itself a documented value (C01's concern).  It is therefore kept as a
+   Definition, refuted on an unsafe shape, and replaced by an exact characterisation that is parametric in the
+   GENERATED mutator tables (Gen/Tables.v, re-derived from collections_impl.py and CPython on every run).
+   The two holes the instance code itself had are repaired in the library and the model follows it:
+   Structure.__setattr__ puts the previous entry back when the descriptor chain raises after the store (the
+   class's __validate__ hook rejecting the new state: F4), and Structure.__delitem__ runs __validate__ and puts
+   the entry back when it raises.  Failure atomicity therefore holds with NO condition on the values
+   ([C03_failure_atomic]) and deletion is unconditionally good ([C03_delitem_good]). *)
 From Coq Require Import ZArith NArith String List Bool.
 Import ListNotations.
 From TP Require Import Base.PyVal Fields.FieldAst Fields.SetChain Fields.Doc Struct.Shapes Struct.Instance
@@ -25,8 +31,8 @@ Section C03.
 
   (* (a) One step.  For ANY mutator table t: an operation whose wrapper mutator is an entry of t with a safe
      shape (trivially so for setattr / del), and whose would-be stored value is acceptable
-     ([value_safe]: the stored normal form is documented-valid and the __validate__ hook accepts the new
-     state), either succeeds leaving [struct_ok] true, or raises leaving the attributes unchanged. *)
+     ([value_safe]: the normal form that stays stored is documented-valid), either succeeds leaving
+     [struct_ok] true, or raises leaving the attributes unchanged. *)
   Theorem C03_step_safe : forall c a op a' r,
       hook_wf c = true -> struct_ok re_match e c a = true ->
       op_shape_safe op = true -> value_safe re_match e c a op = true ->
@@ -48,9 +54,22 @@ Section C03.
     unfold table_safe in Ht. rewrite forallb_forall in Ht. exact (Ht _ Hin).
   Qed.
 
+  (* the failure half needs no hypothesis on the state or the value: a step of safe shape that raises -- field
+     validation, the immutability guards, the base type's method, the class's __validate__ hook after the
+     store -- leaves the attributes exactly as they were *)
+  Theorem C03_failure_atomic : forall c a op a' x,
+      op_shape_safe op = true -> mstep re_match e c a op = (a', Raised x) -> a' = a.
+  Proof. exact (failure_atomic re_match e). Qed.
+
+  (* del x[n] is validated and failure-atomic for every class, valid state and name *)
+  Theorem C03_delitem_good : forall c a n,
+      struct_ok re_match e c a = true ->
+      step_good re_match e c a (fst (mstep re_match e c a (DelItem n))) (snd (mstep re_match e c a (DelItem n))).
+  Proof. exact (delitem_good re_match e). Qed.
+
   (* ... and the characterisation is exact for assignments and deletions: the step is good IFF the
-     condition holds.  In particular an assignment that passes validation, is stored, and is then
-     rejected by the hook is NOT atomic: *)
+     condition holds.  An assignment that passes validation, is stored, and is then rejected by the hook
+     raises and leaves the previous value in place: *)
   Theorem C03_setattr_exact : forall c a n v,
       hook_wf c = true -> struct_ok re_match e c a = true ->
       (step_good re_match e c a (fst (mstep re_match e c a (SetAttr n v))) (snd (mstep re_match e c a (SetAttr n v)))
@@ -63,13 +82,13 @@ Section C03.
        <-> step_safe re_match e c a (DelItem n) = true).
   Proof. exact (delitem_exact re_match e). Qed.
 
-  Theorem C03_hook_failure_not_atomic : forall c a n v fd nf,
+  Theorem C03_hook_failure_atomic : forall c a n v fd nf,
       c_immutable c = false -> find_field (c_fields c) n = Some fd ->
       (c_ignore_none c && is_none_val v && negb (is_required c n)) = false ->
       vset re_match e (fd_field fd) v = Ok nf -> (fd_immutable fd && alist_has a n) = false ->
       hook_ok (c_hook c) (alist_set a n nf) = false ->
-      mstep re_match e c a (SetAttr n v) = (alist_set a n nf, Raised ValueError).
-  Proof. exact (hook_failure_not_atomic re_match e). Qed.
+      mstep re_match e c a (SetAttr n v) = (a, Raised ValueError).
+  Proof. exact (hook_failure_atomic re_match e). Qed.
 
   (* (b) Histories: any finite sequence of safe operations (failed ones included) keeps the instance valid
      after every step, every step is good, and the failed steps are stutters: deleting them from the
@@ -152,20 +171,28 @@ End C03.
 
 (* (c) Witnesses.  For EVERY entry of ANY table whose shape is not safe there is a class, a valid state and
    an operation through that entry violating the statement (it returns normally and leaves an invalid
-   instance); likewise for a hook failing after the store, and for del bypassing the hook. *)
+   instance).  The two closed inputs that used to violate it through the instance code itself -- a hook
+   rejecting a stored value, del bypassing the hook -- now raise and leave the instance as it was. *)
 Theorem C03_witness : forall (t : mutator_table) p,
     In p (unsafe_entries t) -> violates (w_class HookNone) w_state (w_op (snd p)).
 Proof. exact unsafe_entry_witness. Qed.
 
-Theorem C03_witness_hook : violates (w_class w_hook) w_state w_hook_op.
-Proof. exact hook_witness. Qed.
+Theorem C03_hook_rejection_atomic :
+  struct_ok no_re [] (w_class w_hook) w_state = true /\
+  mstep no_re [] (w_class w_hook) w_state w_hook_op = (w_state, Raised ValueError).
+Proof. exact hook_rejection_atomic. Qed.
 
-Theorem C03_witness_del_hook : violates (w_class w_del_hook) w_state w_del_op.
-Proof. exact del_hook_witness. Qed.
+Theorem C03_del_hook_rejection_atomic :
+  struct_ok no_re [] (w_class w_del_hook) w_state = true /\
+  mstep no_re [] (w_class w_del_hook) w_state w_del_op = (w_state, Raised ValueError).
+Proof. exact del_hook_rejection_atomic. Qed.
 
+(* the statement over every shape is refuted by a mutator that is not overridden (no entry of the current
+   tables has that shape: see [table_status] and the counts printed below) *)
 Theorem C03_refuted : ~ C03_statement.
 Proof.
-  intro H. destruct hook_witness as [Hok Hbad]. apply Hbad. apply H; [vm_compute; reflexivity | exact Hok].
+  intro H. destruct (unsafe_shape_witness NotOverridden eq_refl) as [Hok Hbad].
+  apply Hbad. apply H; [vm_compute; reflexivity | exact Hok].
 Qed.
 
 (* (d) The tables as generated NOW: each unsafe entry comes with its violating witness; which entries these
@@ -189,13 +216,15 @@ Print Assumptions C03_step_safe.
 Print Assumptions C03_step_safe_table.
 Print Assumptions C03_setattr_exact.
 Print Assumptions C03_delitem_exact.
-Print Assumptions C03_hook_failure_not_atomic.
+Print Assumptions C03_hook_failure_atomic.
+Print Assumptions C03_failure_atomic.
+Print Assumptions C03_delitem_good.
 Print Assumptions C03_history.
 Print Assumptions C03_failed_steps_stutter.
 Print Assumptions C03_history_nohook.
 Print Assumptions C03_witness.
-Print Assumptions C03_witness_hook.
-Print Assumptions C03_witness_del_hook.
+Print Assumptions C03_hook_rejection_atomic.
+Print Assumptions C03_del_hook_rejection_atomic.
 Print Assumptions C03_refuted.
 Print Assumptions table_status.
 Print Assumptions C03_body_sound.
@@ -212,12 +241,13 @@ Eval vm_compute in (length (unsafe_entries list_mutators), length (unsafe_entrie
                     length (unsafe_entries dict_mutators)).
 
 (* non-vacuity: a class with a hook, a valid state, and a history mixing successful and failing safe
-   operations (x.a.append(7); x.a.append('x') raises; x.i = 9 would break the hook so it is NOT safe and is
-   left out; x.i = 3; del x['j']; x.a.pop() ...): the hypotheses of C03_history hold and the state moves. *)
+   operations (x.a.append(7); x.a.append('x') raises; x.i = 3; x.i = 9 is rejected by the hook and leaves
+   i = 3; del x['j']; x.a.pop() ...): the hypotheses of C03_history hold and the state moves. *)
 Definition ex_hist : list mop :=
   [ WrapMut (s2p "a") (CopyMutateReassign true) (Ok (PList [PNum (NInt 1); PNum (NInt 7)]));
     WrapMut (s2p "a") (CopyMutateReassign true) (Ok (PList [PNum (NInt 1); PNum (NInt 7); PStr (s2p "x")]));
     SetAttr (s2p "i") (PNum (NInt 3));
+    w_hook_op;
     SetAttr (s2p "i") (PStr (s2p "no"));
     WrapMut (s2p "a") (CopyMutateReassign true) (Raise IndexError);
     DelItem (s2p "j");
@@ -229,11 +259,11 @@ Example C03_nonvacuous :
   struct_ok no_re [] (w_class w_hook) w_state = true /\
   hist_safe no_re [] (w_class w_hook) w_state ex_hist = true /\
   map (fun s => is_raised (t_out s)) (run_trace no_re [] (w_class w_hook) w_state ex_hist)
-    = [false; true; false; true; true; false; true; true] /\
+    = [false; true; false; true; true; true; false; true; true] /\
   run_ops no_re [] (w_class w_hook) w_state ex_hist
     = [(s2p "a", PList [PNum (NInt 1); PNum (NInt 7)]); (s2p "i", PNum (NInt 3))] /\
-  (* the unsafe assignment is recognised as such *)
-  step_safe no_re [] (w_class w_hook) w_state w_hook_op = false /\
+  (* the assignment the hook rejects is a safe step *)
+  step_safe no_re [] (w_class w_hook) w_state w_hook_op = true /\
   table_safe current_tables = table_safe current_tables.
 Proof. repeat split; vm_compute; reflexivity. Qed.
 
@@ -301,28 +331,46 @@ Theorem C03_src_setattr :
          Structure__setattr (struct_heap c inst) (PStr n) v = setattr_decision c inst n v.
 Proof. exact generated_setattr. Qed.
 
-(* the model's setattr = that prefix, then the descriptor (vset, immutable-field test, store, hook) *)
+(* the model's setattr = that prefix, then the hand-over to the descriptor (vset, immutable-field test, store,
+   hook) inside the source's try / restore / re-raise ([handover]; the decision hands (v, true): restoring) *)
 Theorem C03_src_setattr_is_model :
   forall (re_match : N -> pystr -> bool) (e : env) (c : classdef) 
            (inst : bool) (a : attrs) (n : pystr) (v : pyval),
          ordinary_name n = true ->
          setattr re_match e c inst a n v =
          match Structure__setattr (struct_heap c inst) (PStr n) v with
-         | Ok (Some v') => descriptor re_match e c inst a n v'
+         | Ok (Some vr) => handover re_match e c inst a n vr
          | Ok None => (a, Done)
          | Raise x => (a, Raised x)
          end.
 Proof. exact generated_setattr_is_model. Qed.
 
-(* the model's DelItem step = the source's guard, then the dictionary deletion *)
+(* the model's DelItem step = the source's guards, then the removal, the hook and the restore the source
+   contains ([delete_entry] with the pair (hook runs, a rejection puts the value back) read off the source) *)
 Theorem C03_src_delitem_is_model :
   forall (re_match : N -> pystr -> bool) (e : env) (c : classdef) (a : attrs) (n : pystr),
          mstep re_match e c a (DelItem n) =
          match Structure__delitem (delitem_heap c) (PStr n) with
-         | Ok _ => if alist_has a n then (alist_del a n, Done) else (a, Raised KeyError)
+         | Ok hr => delete_entry c a n hr
          | Raise x => (a, Raised x)
          end.
 Proof. exact generated_delitem_is_model. Qed.
+
+(* the source's __delitem__ on an instantiated instance: the three refusals, else (hook, restore) = (true, true) *)
+Theorem C03_src_delitem :
+  forall (c : classdef) (n : pystr),
+         Structure__delitem (delitem_heap c) (PStr n) = delitem_decision c n.
+Proof. exact generated_delitem. Qed.
+
+(* what the restore in Structure.__setattr__ buys: with the flag the source hands over NOW a hook failure leaves
+   the attributes as they were; without it the new value would stay stored *)
+Theorem C03_src_restore_matters :
+  forall (re_match : N -> pystr -> bool) (e : env) c a n v fd nf,
+      find_field (c_fields c) n = Some fd -> vset re_match e (fd_field fd) v = Ok nf ->
+      (fd_immutable fd && alist_has a n) = false -> hook_ok (c_hook c) (alist_set a n nf) = false ->
+      handover re_match e c true a n (v, false) = (alist_set a n nf, Raised ValueError) /\
+      handover re_match e c true a n (v, true) = (a, Raised ValueError).
+Proof. exact handover_without_restore_not_atomic. Qed.
 
 (* Field.__set__: refuses an immutable field that already holds a value; otherwise stores, and runs __validate__ iff the instance is instantiated *)
 Theorem C03_src_field_set :
@@ -341,5 +389,7 @@ Proof. exact generated_raise_if_immutable. Qed.
 Print Assumptions C03_src_setattr.
 Print Assumptions C03_src_setattr_is_model.
 Print Assumptions C03_src_delitem_is_model.
+Print Assumptions C03_src_delitem.
+Print Assumptions C03_src_restore_matters.
 Print Assumptions C03_src_field_set.
 Print Assumptions C03_src_wrapper_guard.
